@@ -82,7 +82,7 @@ def run_model(spec, ses):
     name = spec['name']
     tower = spec['atom'] in TOWER_ATOMS or spec.get('base') == 'power3'
     with quiet():
-        cm = Compiled(detgen.desc_from_spec(spec), abstract_towers=tower)
+        cm = Compiled(detgen.desc_from_spec(spec), abstract_towers=tower, front=spec.get('front', 'ro'))
     ses.stats.programs += 1
     cp = cm.cp
     vs = cp.z3vars()
@@ -101,8 +101,11 @@ def run_model(spec, ses):
             loc = sorted(blk['locals'])
             nonlin = bool(blk['cones'] or blk.get('pcones') or blk.get('xcones'))
             label = '%s/block%d(%dr,%dl%s)' % (name, bi, len(blk['rows']), len(loc), ',cone' if nonlin else '')
+            # core only where the whole query is linear: a linear block of a conic program still has the nonlinear oracle
+            # semantics as hypothesis
+            core = not nonlin and not (cp.qmat or cp.pcones or cp.xmat)
             res, model = project_block(ses, cp, blk, vs, S + Sdefs, label, ('projection-nra' if nonlin else 'projection-lra'),
-                                       not nonlin, twin=(bi == 0),
+                                       core, twin=(bi == 0),
                                        timeout_ms=(8000 if ses.tier == 'quick' and nonlin else 40000),
                                        sample=dict(model=name, rows=len(blk['rows']), locals=len(loc), nonlinear=nonlin))
             if res == 'unsat' and loc:
@@ -121,7 +124,7 @@ def run_model(spec, ses):
             ses.oblige(name + '/iface-bounds', S + Sdefs, [z3.Not(z3.And(bc))], kind='projection-qf', twin=False)
     # ---- optimum
     with quiet():
-        cmr = Compiled(detgen.desc_from_spec(spec)) if tower else cm
+        cmr = Compiled(detgen.desc_from_spec(spec), front=spec.get('front', 'ro')) if tower else cm
         try:
             if cmr.cp.qmat or cmr.cp.xmat:
                 from rsome import eco_solver as solver
@@ -275,7 +278,7 @@ def replay(data, verbose=False):
         return rep is None or abs(rep - float(Fraction(data['optS']))) > 1e-6
     spec = data['spec']
     with quiet():
-        cm = Compiled(detgen.desc_from_spec(spec))
+        cm = Compiled(detgen.desc_from_spec(spec), front=spec.get('front', 'ro'))
     f = cm.formula
     if 'point' in data:
         pt = {k: float(Fraction(v)) for k, v in data['point'].items()}
